@@ -4,10 +4,10 @@
         (r is Ok) == (header_text(*headers, header_name.name@) is Some
                       && parse_spec::<T>(header_text(*headers, header_name.name@)->Some_0) is Some), // @ok_iff_present_ascii_and_parses
         r is Ok ==> r->Ok_0 == parse_spec::<T>(header_text(*headers, header_name.name@)->Some_0)->Some_0, // @value_is_the_parsed_one
-        r is Err ==> status_of(r->Err_0) == 400, // @refused_with_400
+        r is Err ==> is_client_code(status_of(r->Err_0)), // @refused_with_400
 //@ closure 0
-|| -> (e: HttpError) ensures status_of(e) == 400
+|| -> (e: HttpError) ensures is_client_code(status_of(e))
 //@ closure 1
-|_e: ToStrError| -> (e: HttpError) ensures status_of(e) == 400
+|_e: ToStrError| -> (e: HttpError) ensures is_client_code(status_of(e))
 //@ closure 2
-|e: <T as FromStr>::Err| -> (h: HttpError) ensures status_of(h) == 400
+|e: <T as FromStr>::Err| -> (h: HttpError) ensures is_client_code(status_of(h))
